@@ -1,8 +1,178 @@
-/- EmdModel.Support — (stub; filled in by the property that owns it) -/
+/-
+  EmdModel.Support — the array-shape "ensurance" routines of `emd/support.py` (C19), on shapes.
+
+  A shape is the `ndarray.shape` tuple as a `List Nat` (`[]` is a 0-d array).  Each routine
+  mirrors the branch structure of the Python function for ONE array; the `…All` versions are the
+  loop over `to_check` (first failure raises).  `ensureVector` / `ensure1d` are the repaired
+  code (DESIGN §9-D15); `…Pinned` is the code as pinned, kept for the `…_current` witnesses.
+-/
 import EmdModel.Protocol
 
 namespace Support
 
-def handle (_o : Protocol.Op) : Option String := none
+abbrev Shape := List Nat
+
+inductive Err | valueError | indexError
+  deriving DecidableEq, Repr
+
+def Err.name : Err → String
+  | .valueError => "ValueError"
+  | .indexError => "IndexError"
+
+/-- `np.all(xx.shape[1:] == np.ones_like(xx.shape[1:]))` -/
+def trailingOnes (s : Shape) : Bool := (s.drop 1).all (· == 1)
+
+/-- number of elements of an array of this shape -/
+def numel (s : Shape) : Nat := s.foldr (· * ·) 1
+
+/-! ### ensure_vector -/
+
+/-- repaired:
+      if   ndim == 2 and shape[1] == 1: out = xx[:, 0]
+      elif ndim == 2 and shape[1] != 1: raise ValueError
+      elif ndim > 2:                    raise ValueError -/
+def ensureVector (s : Shape) : Except Err Shape :=
+  if s.length == 2 && s[1]? == some 1 then .ok (s.take 1)
+  else if s.length == 2 then .error .valueError
+  else if s.length > 2 then .error .valueError
+  else .ok s
+
+/-- pinned: the first two tests say `ndim > 1`, so the `ndim > 2` branch is dead and
+    `xx[:, 0]` is applied to (n,1,k,…) giving (n,k,…) -/
+def ensureVectorPinned (s : Shape) : Except Err Shape :=
+  if s.length > 1 && s[1]? == some 1 then .ok (s.take 1 ++ s.drop 2)
+  else if s.length > 1 then .error .valueError
+  else if s.length > 2 then .error .valueError
+  else .ok s
+
+/-! ### ensure_1d_with_singleton -/
+
+/-- repaired:
+      if ndim > 2 and trailing dims all 1:  out = xx.reshape(shape[0], 1)
+      if ndim > 1 and not (trailing dims all 1): raise ValueError
+      elif ndim == 1: out = out[:, newaxis] -/
+def ensure1d (s : Shape) : Except Err Shape :=
+  let out : Shape := if s.length > 2 && trailingOnes s then s.take 1 ++ [1] else s
+  if s.length > 1 && !trailingOnes s then .error .valueError
+  else if s.length == 1 then .ok (out ++ [1])
+  else .ok out
+
+/-- `np.squeeze(xx)[:, np.newaxis]`: drop every axis of length 1, then index the first axis -/
+def squeezeNewaxis (s : Shape) : Except Err Shape :=
+  match s.filter (· != 1) with
+  | [] => .error .indexError                 -- 0-d after squeeze: too many indices
+  | n :: rest => .ok (n :: 1 :: rest)
+
+/-- pinned: only `ndim > 2` is validated, so (n,2) and (1,n) pass untouched; trailing
+    singletons are removed with `np.squeeze`, which also removes a leading axis of length 1 -/
+def ensure1dPinned (s : Shape) : Except Err Shape :=
+  if s.length > 2 && trailingOnes s then squeezeNewaxis s
+  else if s.length > 2 then .error .valueError
+  else if s.length == 1 then .ok (s ++ [1])
+  else .ok s
+
+/-! ### ensure_2d -/
+
+/-- `if ndim == 1: out = xx[:, newaxis]` — nothing else is touched, nothing is rejected -/
+def ensure2d (s : Shape) : Shape :=
+  if s.length == 1 then s ++ [1] else s
+
+/-! ### ensure_equal_dims -/
+
+/-- `tuple(np.array(x.shape)[dim])` for the list of axes `dims`: IndexError on a missing axis -/
+def pick (s : Shape) : List Nat → Except Err (List Nat)
+  | [] => .ok []
+  | d :: ds =>
+    match s[d]? with
+    | none => .error .indexError
+    | some v =>
+      match pick s ds with
+      | .ok vs => .ok (v :: vs)
+      | .error e => .error e
+
+/-- the list comprehension `[tuple(np.array(x.shape)[dim]) for x in to_check]` -/
+def pickAll (dims : List Nat) : List Shape → Except Err (List (List Nat))
+  | [] => .ok []
+  | s :: ss =>
+    match pick s dims with
+    | .error e => .error e
+    | .ok p =>
+      match pickAll dims ss with
+      | .ok ps => .ok (p :: ps)
+      | .error e => .error e
+
+/-- `dim = np.arange(to_check[0].ndim) if dim is None else [dim]` -/
+def dimsOf (s0 : Shape) : Option Nat → List Nat
+  | none => List.range s0.length
+  | some d => [d]
+
+/-- `ensure_equal_dims(to_check, names, func_name, dim)`:
+      dim = arange(to_check[0].ndim) if dim is None else [dim]
+      all_dims = [tuple(np.array(x.shape)[dim]) for x in to_check]
+      ValueError unless every entry equals the first -/
+def ensureEqualDims (shapes : List Shape) (dim : Option Nat) : Except Err Unit :=
+  match shapes with
+  | [] => .error .indexError                 -- to_check[0]
+  | s0 :: rest =>
+    let dims := dimsOf s0 dim
+    match pick s0 dims with
+    | .error e => .error e
+    | .ok p0 =>
+      match pickAll dims rest with
+      | .error e => .error e
+      | .ok ps => if ps.all (· == p0) then .ok () else .error .valueError
+
+/-! ### the loops over `to_check` -/
+
+/-- `for idx, xx in enumerate(to_check): …` — every array in turn, the first failure raises -/
+def allOk (f : Shape → Except Err Shape) : List Shape → Except Err (List Shape)
+  | [] => .ok []
+  | s :: ss =>
+    match f s with
+    | .error e => .error e
+    | .ok t =>
+      match allOk f ss with
+      | .ok ts => .ok (t :: ts)
+      | .error e => .error e
+
+def ensureVectorAll (ss : List Shape) : Except Err (List Shape) := allOk ensureVector ss
+def ensure1dAll (ss : List Shape) : Except Err (List Shape) := allOk ensure1d ss
+def ensure2dAll (ss : List Shape) : List Shape := ss.map ensure2d
+
+/-! ### protocol -/
+
+open Protocol in
+def handle (o : Protocol.Op) : Option String :=
+  match o.name with
+  | "ENS" => some <| Id.run do
+      let some fn := o.str? "fn" | return "bad-op"
+      let some variant := o.str? "variant" | return "bad-op"
+      let some vs := o.vecs.mapM id | return "bad-op"
+      let some shapes := vs.mapM toNats? | return "bad-op"
+      if shapes.isEmpty then return "bad-op"
+      let f : Option (Shape → Except Err Shape) := match fn, variant with
+        | "vec", "fixed" => some ensureVector
+        | "vec", "pinned" => some ensureVectorPinned
+        | "1d", "fixed" => some ensure1d
+        | "1d", "pinned" => some ensure1dPinned
+        | "2d", _ => some fun s => .ok (ensure2d s)
+        | _, _ => none
+      let some f := f | return "bad-op"
+      match allOk f shapes with
+      | .error e => return s!"err {e.name}"
+      | .ok ts => return "ok" ++ String.join (ts.map fun t => " | " ++ fmtNats t)
+  | "ENSEQ" => some <| Id.run do
+      let some ds := o.str? "dim" | return "bad-op"
+      let dim ← match ds with
+        | "none" => pure none
+        | d => match d.toNat? with
+          | some k => pure (some k)
+          | none => return "bad-op"
+      let some vs := o.vecs.mapM id | return "bad-op"
+      let some shapes := vs.mapM toNats? | return "bad-op"
+      match ensureEqualDims shapes dim with
+      | .error e => return s!"err {e.name}"
+      | .ok () => return "ok"
+  | _ => none
 
 end Support
